@@ -77,7 +77,11 @@ pub fn run_case(idents: &[Ident], idx: u64, rng: &mut Rng, _thorough: bool, hist
         let max_nodes = *rng.pick(&[0usize, 1, 3, 16, 16, 16, 16, 20, 40, 200]);
         // record sizes: mixed, or uniform at a value whose multiples straddle the splitting limit
         // (5 * 235 = 1175 < 1176 = 4 * 294 = 6 * 196)
-        let uniform: Option<usize> = if rng.chance(2, 5) { Some(*rng.pick(&[235usize, 236, 293, 294, 195, 196, 300])) } else { None };
+        // one case in twelve is about long answers: a large configured maximum, a full table of large
+        // records and requests for many distances (more than fifteen NODES packets)
+        let long_answers = rng.chance(1, 12);
+        let max_nodes = if long_answers { *rng.pick(&[64usize, 100, 200]) } else { max_nodes };
+        let uniform: Option<usize> = if long_answers { Some(*rng.pick(&[294usize, 300])) } else if rng.chance(2, 5) { Some(*rng.pick(&[235usize, 236, 293, 294, 195, 196, 300])) } else { None };
         let local_spec = RecSpec {
             ident: p,
             seq: rng.range(1, 1000),
@@ -93,7 +97,7 @@ pub fn run_case(idents: &[Ident], idx: u64, rng: &mut Rng, _thorough: bool, hist
         let local_id = idents[p].id;
 
         // ---- table content
-        let n_entries = *rng.pick(&[0u64, 3, 10, 30, 60, 100, 140]);
+        let n_entries = if long_answers { 140 } else { *rng.pick(&[0u64, 3, 10, 30, 60, 100, 140]) };
         let requester = loop {
             let r = rng.below(idents.len() as u64) as usize;
             if r != p {
@@ -161,6 +165,7 @@ pub fn run_case(idents: &[Ident], idx: u64, rng: &mut Rng, _thorough: bool, hist
         let mut nontrivial = false;
         let mut descr: Vec<J> = vec![];
         let nsteps = rng.range(4, 9);
+        let mut last_pinger: Option<usize> = None;
         for _ in 0..nsteps {
             if !b.alive() {
                 failures.push(("C14".to_string(), "the service task ended (panic)".to_string()));
@@ -183,6 +188,9 @@ pub fn run_case(idents: &[Ident], idx: u64, rng: &mut Rng, _thorough: bool, hist
             if forced.is_some() || rng.chance(3, 4) {
                 // FINDNODE
                 let mut ds = gen_distances(rng, &populated);
+                if long_answers && rng.chance(2, 3) {
+                    ds = (0..=256u64).rev().collect();
+                }
                 if let Some(d) = forced {
                     // mostly ask for that distance (alone, last of several, or first)
                     match rng.below(4) {
@@ -268,16 +276,25 @@ pub fn run_case(idents: &[Ident], idx: u64, rng: &mut Rng, _thorough: bool, hist
                     let r = rng.bytes(4);
                     sock4([r[0], r[1], r[2], r[3]], port)
                 };
-                let rq = rng.below(idents.len() as u64) as usize;
+                // the sender: anybody, a table entry, or the sender of the previous PING again (a peer
+                // that announces a newer record makes the service ask for it; its next PING, while
+                // that request is pending, is answered like any other)
+                let members: Vec<usize> = chosen.iter().cloned().collect();
+                let rq = match (rng.below(3), last_pinger) {
+                    (0, Some(q)) => q,
+                    (1, _) if !members.is_empty() => *rng.pick(&members),
+                    _ => rng.below(idents.len() as u64) as usize,
+                };
                 if rq == p {
                     continue;
                 }
+                last_pinger = Some(rq);
                 let addr = NodeAddress { socket_addr: sa, node_id: idents[rq].node_id() };
                 let rid = gen_req_id(rng);
                 let seq_now = b.s.local_enr.read().seq();
                 b.inject(HandlerOut::Request(
                     addr.clone(),
-                    Box::new(Request { id: RequestId(rid.clone()), body: RequestBody::Ping { enr_seq: rng.below(5) } }),
+                    Box::new(Request { id: RequestId(rid.clone()), body: RequestBody::Ping { enr_seq: *rng.pick(&[0u64, 1, 2, 3, 4, 60, 70, 1 << 40]) } }),
                 ))
                 .await;
                 let msgs = b.drain();
